@@ -23,7 +23,7 @@ CLAIMS = {
   technique="Coq simulation proof with value relation (templates' assembly = shape of events) + differential correspondence"),
  "C03": dict(
   category="proof",
-  text="Coq: C03_lattice (the nine-row choice table, the optional and closure tables and the sequence/choice rules regenerated from the source are the documented join One < Optional < Multiple), C03_arity_sound (for every grammar, expression and input, on the successful path of the PEG semantics every field-match event belongs to a declared field, a field declared plain is matched exactly once and an Option field at most once; proved by induction over the specification's evaluation, unbounded), C03_values_fit (hence the value of every rule match can be stored in the declared type: the arity-mismatch stuck state is unreachable), C03_field_type_single / C03_field_type_enum / C03_rule_kinds (the declaration emitters: arity decides Option/Vec, `*` decides Box, several types decide the generated enum, `char` is the built-in; @string, field-less, @position, override-only rules). Correspondence: the declarations the compiler model computes == the declarations read back from the token text of the real generator, for every stream grammar and derive set. Oracle: rustc compiles every accepted grammar under #![forbid(unsafe_code)] together with exact-type assertions generated from the MODEL's declarations (exhaustive destructuring, exhaustive match, `let _: &T`), including Rust-keyword rule and field names and custom derive sets; a committed corpus (corpus/rustc) pins the known failing shapes. Partial: that rustc accepts the parse functions is observed, not proved.",
+  text="Coq: C03_lattice (the nine-row choice table, the optional and closure tables and the sequence/choice rules regenerated from the source are the documented join One < Optional < Multiple), C03_arity_sound (for every grammar, expression and input, on the successful path of the PEG semantics every field-match event belongs to a declared field, its rule type is in the declared type set of that field - so a generated enum has a variant for it - a field declared plain is matched exactly once and an Option field at most once; proved by induction over the specification's evaluation, unbounded), C03_values_fit (hence the value of every rule match can be stored in the declared type: the arity-mismatch stuck state is unreachable), C03_field_type_single / C03_field_type_enum / C03_rule_kinds (the declaration emitters: arity decides Option/Vec, `*` decides Box, several types decide the generated enum, `char` is the built-in; @string, field-less, @position, override-only rules). Correspondence: the declarations the compiler model computes == the declarations read back from the token text of the real generator, for every stream grammar and derive set. Oracle: rustc compiles every accepted grammar under #![forbid(unsafe_code)] together with exact-type assertions generated from the MODEL's declarations (exhaustive destructuring, exhaustive match, `let _: &T`), including Rust-keyword rule and field names and custom derive sets; a committed corpus (corpus/rustc) pins the known failing shapes. Partial: that rustc accepts the parse functions is observed, not proved.",
   note=TB + "Quantifier as given: recursive type cycles broken by * or Vec; names not colliding with prelude or peginator items (the generator's own locals state, global, iterations, __result count as peginator items). Two open known findings (field named like a unit-struct rule; @string rule with a multi-type field), two fixed.",
   technique="Coq proof of arity soundness over the PEG specification + table facts regenerated from the source + compiler model vs generated declarations + rustc with model-generated exact-type assertions"),
  "C04": dict(
@@ -33,9 +33,9 @@ CLAIMS = {
   technique="Coq generic invariant theorem instantiated with UTF-8 anchoring + byte-level proofs of all matchers + differential runs with the boundary assertion"),
  "C05": dict(
   category="proof",
-  text="Coq (for every grammar, arbitrary stateful hooks): C05_hit (a call of a memoized rule that finds an entry returns exactly the stored result and touches neither cache nor user state), C05_miss / C05_stores_what_it_returns (a miss returns the body's result and stores that same result), C05_fresh (every top-level parse starts from the empty cache, so nothing carries over between calls), C05_unmarked_reference (the grammar without markers is read as the PEG specification, by the simulation). Partial: the whole-grammar theorem `memoized M = unmarked M` is not yet proved; that step is decided by the oracle: each generated grammar with @memoize on a random subset of rules vs the same text with the markers removed — same acceptance and tree on every shared input, and identical results when the parses are re-run in reverse order in one process.",
-  note=TB + "Hooks are assumed deterministic functions of (input rest, user state); user-state effects of memoized bodies that are skipped on a hit are a documented behaviour, excluded by generating memo twins without user context.",
-  technique="Coq wrapper-level theorems over the model for all grammars + metamorphic marked/unmarked differential runs + model correspondence"),
+  text="Coq: C05_transparent (MemoEq.memoize_transparent: for every grammar without @leftrec rules, ANY subset of rules marked @memoize, every setting of the source's decision points, hooks - possibly stateful - whose results do not depend on the user state, every input, exported rule and pair of recursion bounds: the model of the generated parser and the model of the parser of the same grammar with all @memoize markers removed, whenever both return, accept alike, return the same tree and stop at the same offset; only the error detail may differ. Proved by a relational walk over every code template carrying the invariant `each cache entry is what the unmarked parser computes for that rule at that offset`), C05_any_two_markings (two markings of one grammar agree with the unmarked grammar, hence with each other), C05_hit / C05_miss / C05_stores_what_it_returns (wrapper level, all grammars), C05_fresh (every parse call starts from the empty cache), C05_unmarked_reference (the unmarked grammar is read as the PEG specification). Oracle: each generated grammar with @memoize on a random subset of rules vs the same text without markers - same acceptance and tree on every shared input; reverse-order reruns in one process give identical results.",
+  note=TB + "Grammars with @leftrec rules are outside C05_transparent (the property excludes rules on a left-recursive cycle); they are covered by the twin oracle only. `Whenever both return`: the theorem is about results for any pair of fuel values, not about termination.",
+  technique="Coq relational proof over all templates (memoized model vs unmarked model, cache-soundness invariant) + metamorphic marked/unmarked differential runs + model correspondence"),
  "C06": dict(
   category="proof",
   text="Coq (every grammar, stateful hooks): C06_entry_after_return (after a memoized call returned Ok or Err the entry exists, because the wrapper is closed around early exits — fact memo_closed regenerated from rule.rs), C06_no_evaluation_with_entry (instance of the generic invariant: entries are never removed and every body evaluation logged during any evaluation is for a key without entry at its start), C06_hit_evaluates_nothing, C06_refuted_unwrapped (with the wrapper open the failing result is not stored: the pre-fix behaviour is refuted by a witness). Hence two evaluations of one (rule, offset) can only be nested (re-entrance), which the known finding c06:reentrant-through-leftrec exhibits on the real code. Oracle: per-(rule, offset) body evaluations counted from the implementation's own trace and by an extern probe at the start of memoized bodies; the model's ghost evaluation log must equal the count seen in the implementation.",
@@ -73,8 +73,8 @@ CLAIMS = {
   technique="Coq simulation proof + wrapper-level lemmas + differential correspondence of hook-call logs"),
  "C15": dict(
   category="proof",
-  text="Coq, about the compiler model (Compile.v: get_fields, check_flags, the per-rule error order, literal/range decoding in generation order, char and extern rules): C15_terminates (if a rank decreasing along every include exists, a fuel bound computed from the grammar suffices for every rule: the recursion over includes is bounded and the answer is code or an error), C15_cycle_overflows / C15_cycle_is_not_ranked (an include cycle diverges for every fuel: the stack overflow recorded as known finding), C15_accepted_rules_respect_the_restrictions (whenever a rule is accepted, none of the documented restrictions is broken anywhere in its body, at any depth and through any chain of includes: fields in lookaheads, missing/@char/@extern includes, invalid code points, non-ASCII i-literals, @string+@export, skipping Whitespace, @memoize/@leftrec without Clone, @export/@position on a plain override, multi-type @: outside arity One, mixing @: with named fields), C15_include_resolves_only_normal_rules, C15_invalid_code_points. Correspondence: ~900 (quick) grammar texts - valid, built to violate each restriction (one or two violating rules spliced in), character mutations, garbage, identifier spellings, include cycles, deep nesting - each compiled in its own process; outcome, failing rule, error class and payload equal the model's. Oracle: no panic/abort/hang outside the four classes recorded as known findings; peginator-cli exit status, Compile::run and run_exit_on_error report every failure class.",
-  note=TB + "Partial: the template-level panic sites (choice default for a One field, the sequence assert, the two expects in field.rs) are not yet proved unreachable in Coq; the stream never reaches them. Deep nesting and include cycles overflow the stack (known findings).",
+  text="Coq, about the compiler model (Compile.v: get_fields, check_flags, the per-rule error order, literal/range decoding in generation order, char and extern rules): C15_terminates (if a rank decreasing along every include exists, a fuel bound computed from the grammar suffices for every rule: the recursion over includes is bounded and the answer is code or an error), C15_cycle_overflows / C15_cycle_is_not_ranked (an include cycle diverges for every fuel: the stack overflow recorded as known finding), C15_accepted_rules_respect_the_restrictions (whenever a rule is accepted, none of the documented restrictions is broken anywhere in its body, at any depth and through any chain of includes: fields in lookaheads, missing/@char/@extern includes, invalid code points, non-ASCII i-literals, @string+@export, skipping Whitespace, @memoize/@leftrec without Clone, @export/@position on a plain override, multi-type @: outside arity One, mixing @: with named fields), C15_include_resolves_only_normal_rules, C15_invalid_code_points, C15_templates_never_panic (the panic sites inside the code templates - the two expects of field.rs, choice.rs `Outer field cannot be One`, the sequence.rs arity assert - are unreachable for every grammar, at any depth, through includes). Correspondence: ~900 (quick) grammar texts - valid, built to violate each restriction (one or two violating rules spliced in), character mutations, garbage, identifier spellings, include cycles, deep nesting - each compiled in its own process; outcome, failing rule, error class and payload equal the model's. Oracle: no panic/abort/hang outside the four classes recorded as known findings; peginator-cli exit status, Compile::run and run_exit_on_error report every failure class.",
+  note=TB + "Identifier construction, derive names, include cycles and deep nesting still panic/overflow: four classes recorded as known findings, each characterised by a predicate of the model (idents_ok, derives_ok, GOverflow, nesting depth).",
   technique="Coq proofs about a total compiler model (termination under well-founded includes, restrictions imply rejection) + per-process differential runs against the real front end and generator + exit-status checks of the tools"),
  "C16": dict(
   category="proof",
